@@ -99,6 +99,8 @@ def bind(ints, bools):
             b[name] = ints[slot]
         elif kind == 'len':
             b[name] = list(range(pick([0, 1, 2, 3], ints[slot])))
+        elif kind == 'msgobj':
+            b[name] = MessageObject()
         elif kind == 'fail':
             # evaluation point L(name): 0 succeeds, 1 raises ValueError, 2 raises a custom exception
             b.setdefault('__outs__', {})[name] = ints[slot]
@@ -119,6 +121,13 @@ def bind(ints, bools):
 
 class CustomFailure(Exception):
     pass
+
+
+class MessageObject:
+    """neither string nor number nor __html__: offered to the translation function when inserted"""
+
+    def __str__(self):
+        return 'msg'
 
 
 def run(tpl, b):
